@@ -41,7 +41,8 @@ def main():
         meta['ran'].append({'cmd': 'git apply patch.diff', 'exit': rca})
         rc1, out1 = sh(f'/venv/bin/python {demo}', cwd=wt, env=env, timeout=900)
         meta['ran'].append({'cmd': 'demo.py with the change', 'exit': rc1, 'tail': out1[-300:]})
-        rct, outt = sh(f'/venv/bin/python -m pytest -q -p no:cacheprovider -x {tests}', cwd=wt, env=env, timeout=3000)
+        # private network namespace: the suite's TCP tests use fixed ports and collide with other runs on this machine
+        rct, outt = sh(f"unshare -rn sh -c 'ip link set lo up; exec /venv/bin/python -m pytest -q -p no:cacheprovider -x --timeout=300 {tests}'", cwd=wt, env=env, timeout=3000)
         meta['ran'].append({'cmd': f'pytest {tests} with the change', 'exit': rct, 'tail': outt.strip().splitlines()[-1:] })
         ok = rc0 == 0 and rca == 0 and rc1 != 0 and rct == 0
         caught = {}
